@@ -9,6 +9,7 @@ import (
 	"log"
 	"net"
 	"os"
+	"reflect"
 	"runtime"
 	"sort"
 	"strings"
@@ -349,4 +350,61 @@ func waitQuiescent() (bool, string) {
 			time.Sleep(200 * time.Microsecond)
 		}
 	}
+}
+
+// fillPointers allocates every nil pointer-to-struct member (recursively) and
+// gives nil NodeID / ExpandedNodeID / ExtensionObject members their null
+// value, so that a registry instance encodes to something the peer can decode
+// (gopcua encodes a nil struct pointer as nothing at all).
+func fillPointers(v reflect.Value, depth int) {
+	if depth > 6 {
+		return
+	}
+	switch v.Kind() {
+	case reflect.Ptr:
+		if !v.IsNil() {
+			fillPointers(v.Elem(), depth+1)
+		}
+	case reflect.Struct:
+		for i := 0; i < v.NumField(); i++ {
+			f := v.Field(i)
+			if !f.CanSet() {
+				continue
+			}
+			if f.Kind() == reflect.Ptr && f.IsNil() {
+				switch f.Type() {
+				case reflect.TypeOf((*ua.NodeID)(nil)):
+					f.Set(reflect.ValueOf(ua.NewTwoByteNodeID(0)))
+				case reflect.TypeOf((*ua.ExpandedNodeID)(nil)):
+					f.Set(reflect.ValueOf(ua.NewTwoByteExpandedNodeID(0)))
+				case reflect.TypeOf((*ua.ExtensionObject)(nil)):
+					f.Set(reflect.ValueOf(ua.NewExtensionObject(nil)))
+				case reflect.TypeOf((*ua.Variant)(nil)):
+					// a nil Variant is encoded as the null variant
+				default:
+					if f.Type().Elem().Kind() == reflect.Struct {
+						f.Set(reflect.New(f.Type().Elem()))
+						fillPointers(f.Elem(), depth+1)
+					}
+				}
+				continue
+			}
+			fillPointers(f, depth+1)
+		}
+	case reflect.Slice:
+		for i := 0; i < v.Len(); i++ {
+			fillPointers(v.Index(i), depth+1)
+		}
+	}
+}
+
+// roundTrips reports whether the request survives gopcua's own encode/decode.
+func roundTrips(req ua.Request) error {
+	b, err := ua.Encode(req)
+	if err != nil {
+		return err
+	}
+	back := reflect.New(reflect.TypeOf(req).Elem()).Interface()
+	_, err = ua.Decode(b, back)
+	return err
 }
